@@ -312,6 +312,12 @@ Lemma is_group_unfold : forall r,
   is_group r = match r with RStr s => (String.eqb s "all" || String.eqb s "default")%bool | RList _ => false end.
 Proof. intros [s|l]; [|reflexivity]. unfold is_group, mem_string. cbn [existsb skip_group_names]. rewrite orb_false_r. reflexivity. Qed.
 
+(* MODEL = SPEC: with the decisions regenerated from the current source the model of B and G is the documented rule *)
+Lemma bandpass_is_spec : forall cf df segs, bandpass_corr cf df segs = spec_bandpass_corr cf df segs.
+Proof. reflexivity. Qed.
+Lemma gain_is_spec : forall N sols targets, gain_corr N sols targets = spec_gain_corr N sols targets.
+Proof. reflexivity. Qed.
+
 Lemma gain_node_key : forall tgs tg c (a : rsol) (b : cnode), gain_node tgs tg c a = Some b -> fst b = qn (fst a).
 Proof.
   intros tgs tg c a b H. rewrite gain_node_unfold in H. destruct (nth c (snd a) None); [|discriminate].
